@@ -6,45 +6,72 @@
 (* starting with "U:" belong to none.                                           *)
 EXTENDS Faults
 
-\* ---- what the code does, from the schedule alone (for classifying a failure) ----
-\* FaultHandle.cancel() before FaultSchedule.start() is the only cancel that has no effect
-CodeLive(w) == Win(w).cm \in {0, 1}
-PreCancelled(w) == Win(w).cm = 1
+\* ---- what the code does with the toggles of the windows, from the schedule alone ----
+\* A failure gets the key of a defect class X when it is what X produces, the rest of the code behaving
+\* as the current model (sch.dev) says.  X's own behaviour is always the defective one ("B"): if X is an
+\* open finding that is the truth, if X is not (fixed or never known) the key is a VIOLATION anyway.
+\*
+\* Windows the code runs: not cancelled, or cancelled before FaultSchedule.start() while that cancel is
+\* without effect (sch.dev); CodeLiveB = under the cancel defect itself.
+CodeLive(w) == Win(w).cm = 0 \/ (Win(w).cm = 1 /\ Has("cancel_before_start_ineffective"))
+CodeLiveB(w) == Win(w).cm \in {0, 1}
 Toggles(ws) == { <<Win(w).s, 2 * w - 1, TRUE>> : w \in ws }
                \cup { <<Win(w).e, 2 * w, FALSE>> : w \in { v \in ws : Win(v).e # Inf } }
-\* value of a flag / set membership / restored attribute that every activation sets and every
-\* deactivation clears, as seen by an event created after the fault events
-CodeOn(ws, t) ==
+\* value at t (for an event created after the fault events) of a flag / set membership / restored
+\* attribute that every activation sets and every deactivation clears: the last toggle decides
+OnB(ws, t) ==
     LET tg == { x \in Toggles(ws) : x[1] <= t } IN
     IF tg = {} THEN FALSE
     ELSE (CHOOSE x \in tg : \A y \in tg : y[1] < x[1] \/ (y[1] = x[1] /\ y[2] <= x[2]))[3]
+\* the same under the current model: defective if the deviation is in force, else on while more
+\* activations than deactivations have happened
+OnD(ws, t, deviation) ==
+    IF Has(deviation) THEN OnB(ws, t)
+    ELSE LET tg == { x \in Toggles(ws) : x[1] <= t } IN
+         Cardinality({ x \in tg : x[3] }) > Cardinality({ x \in tg : ~x[3] })
 CCrash(e) == { w \in 1..NW : CodeLive(w) /\ IsCrashK(Win(w).k) /\ Win(w).tg[1] = e }
 CPartSym(x, y) == { w \in 1..NW : CodeLive(w) /\ PartCovers(w, x, y) /\ Win(w).x = 0 }
 CPartDir(x, y) == { w \in 1..NW : CodeLive(w) /\ PartCovers(w, x, y) /\ Win(w).x = 1 }
-CPartOn(x, y, t) == CodeOn(CPartSym(x, y), t) \/ CodeOn(CPartDir(x, y), t)
 CLink(k, x, y) == { w \in 1..NW : CodeLive(w) /\ Win(w).k = k /\ Win(w).tg = <<x, y>> }
 CCap == { w \in 1..NW : CodeLive(w) /\ Win(w).k = "cap" }
-PreWeak(ws, t) == \E w \in ws : PreCancelled(w) /\ Weak(w, t)
+CrashB(e, t) == OnB(CCrash(e), t)
+CrashD(e, t) == OnD(CCrash(e), t, "bool_flag_not_refcount")
+PartB(x, y, t) == OnB(CPartSym(x, y), t) \/ OnB(CPartDir(x, y), t)
+PartD(x, y, t) == OnD(CPartSym(x, y), t, "heal_removes_shared_pairs")
+                  \/ OnD(CPartDir(x, y), t, "heal_removes_shared_pairs")
+LossB(x, y, t) == OnB(CLink("loss", x, y), t)
+LossD(x, y, t) == OnD(CLink("loss", x, y), t, "loss_restore_captured_original")
+LatB(x, y, t) == OnB(CLink("lat", x, y), t)
+CapB(t) == OnB(CCap, t)
+\* some window cancelled before start() covers t (and would be in force under the cancel defect)
+PreCrash(e) == { w \in 1..NW : Win(w).cm = 1 /\ IsCrashK(Win(w).k) /\ Win(w).tg[1] = e }
+PrePart(x, y) == { w \in 1..NW : Win(w).cm = 1 /\ PartCovers(w, x, y) }
+PreLink(k, x, y) == { w \in 1..NW : Win(w).cm = 1 /\ Win(w).k = k /\ Win(w).tg = <<x, y>> }
+PreCap == { w \in 1..NW : Win(w).cm = 1 /\ Win(w).k = "cap" }
+PreWeak(ws, t) == \E w \in ws : Weak(w, t)
 
 ActKey(it) ==      \* it = <<e, j, i, t>> ran although a live window strictly covers t
     LET e == it[1]  j == it[2]  i == it[3]  t == it[4] IN
     IF e = Q
-    THEN IF CodeOn(CCrash(Q), Job(j).t) THEN "U:queued_job_admitted_while_crashed"
+    THEN LET a == Job(j).t IN
+         IF CrashD(Q, a) /\ CrashB(Q, a) THEN "U:queued_job_admitted_while_crashed"
+         ELSE IF CrashD(Q, a) THEN "handler_runs_after_overlapping_window_end"
          ELSE IF i = 0 THEN "queued_item_served_while_crashed" ELSE "queued_worker_advances_while_crashed"
-    ELSE IF i > 0 THEN "process_advances_while_crashed"
-         ELSE IF ~CodeOn(CCrash(e), t) THEN "handler_runs_after_overlapping_window_end"
-              ELSE "U:handler_ran_while_crash_flag_set"
+    ELSE IF i > 0 /\ CrashD(e, t) THEN "process_advances_while_crashed"
+         ELSE IF ~CrashB(e, t) THEN "handler_runs_after_overlapping_window_end"
+         ELSE IF i > 0 THEN "process_advances_while_crashed"
+         ELSE "U:handler_ran_while_crash_flag_set"
 
 MissKey(s) ==      \* s = <<j, i>> did not run although no live window touches its history
     LET e == Job(s[1]).e IN
-    IF \E w \in CCrash(e) : PreCancelled(w) /\
+    IF \E w \in PreCrash(e) :
           (IF e = Q THEN Win(w).s <= Job(s[1]).t ELSE Win(w).s <= PT(s[1], s[2]) /\ Win(w).e >= Job(s[1]).t)
     THEN "cancel_before_start_ineffective" ELSE "U:job_not_processed_outside_windows"
 
-EffKey(live, code, codeon, t, on, healed, notin, outside) ==
+EffKey(live, pre, onB, t, on, healed, notin, outside) ==
     IF SomeStrict(live, t) /\ ~on
-    THEN (IF ~codeon THEN healed ELSE notin)
-    ELSE (IF PreWeak(code, t) THEN "cancel_before_start_ineffective" ELSE outside)
+    THEN (IF ~onB THEN healed ELSE notin)
+    ELSE (IF PreWeak(pre, t) THEN "cancel_before_start_ineffective" ELSE outside)
 
 Got(L, h) == \E n \in 1..Len(L.hlog) : L.hlog[n][1] = h /\ L.hlog[n][2] = 1
 HeldAcross(L) == \E w \in CCap : \E h \in 1..NH :
@@ -52,25 +79,27 @@ HeldAcross(L) == \E w \in CCap : \E h \in 1..NH :
 CapOverlap == \E v, w \in CCap : v # w /\ Win(v).s <= Win(w).e /\ Win(w).s <= Win(v).e
 
 MsgFateKey(L, p) ==
-    LET P == sch.probes[p] IN
-    IF p \in Delivered(L)
-    THEN (IF CPartOn(P.x, P.y, P.t) \/ CodeOn(CLink("loss", P.x, P.y), P.t)
-          THEN "U:message_delivered_through_active_fault"
-          ELSE IF SomeStrict(PartWins(P.x, P.y), P.t) THEN "partition_healed_while_window_open"
-               ELSE "loss_restored_while_window_open")
-    ELSE (IF PreWeak(CPartSym(P.x, P.y) \cup CPartDir(P.x, P.y) \cup CLink("loss", P.x, P.y), P.t)
-          THEN "cancel_before_start_ineffective" ELSE "U:message_lost_outside_windows")
+    LET P == sch.probes[p]  x == P.x  y == P.y  t == P.t
+        sp == SomeStrict(PartWins(x, y), t)  sl == SomeStrict(LinkWins("loss", x, y), t)
+    IN IF p \in Delivered(L)
+       THEN (IF sp /\ ~PartB(x, y, t) /\ ~LossD(x, y, t) THEN "partition_healed_while_window_open"
+             ELSE IF sl /\ ~LossB(x, y, t) /\ ~PartD(x, y, t) THEN "loss_restored_while_window_open"
+             ELSE IF ~PartB(x, y, t) /\ ~LossB(x, y, t)
+                  THEN (IF sp THEN "partition_healed_while_window_open" ELSE "loss_restored_while_window_open")
+             ELSE "U:message_delivered_through_active_fault")
+       ELSE (IF PreWeak(PrePart(x, y) \cup PreLink("loss", x, y), t)
+             THEN "cancel_before_start_ineffective" ELSE "U:message_lost_outside_windows")
 MsgDelayKey(L, n) ==
     LET P == sch.probes[L.msgs[n][1]] IN
     IF SomeStrict(LinkWins("lat", P.x, P.y), P.t)
-    THEN (IF ~CodeOn(CLink("lat", P.x, P.y), P.t) THEN "latency_restored_while_window_open"
+    THEN (IF ~LatB(P.x, P.y, P.t) THEN "latency_restored_while_window_open"
           ELSE "U:latency_not_applied_in_window")
-    ELSE (IF PreWeak(CLink("lat", P.x, P.y), P.t) THEN "cancel_before_start_ineffective"
+    ELSE (IF PreWeak(PreLink("lat", P.x, P.y), P.t) THEN "cancel_before_start_ineffective"
           ELSE "U:latency_applied_outside_windows")
 
 EndKey(L, n) ==
     IF L.obs[n][7] # sch.C
-    THEN (IF PreWeak(CCap, L.obs[n][1]) THEN "cancel_before_start_ineffective" ELSE "U:capacity_not_restored")
+    THEN (IF PreWeak(PreCap, L.obs[n][1]) THEN "cancel_before_start_ineffective" ELSE "U:capacity_not_restored")
     ELSE IF HeldAcross(L) THEN "capacity_not_restored_after_hold_across_activation"
          ELSE IF CapOverlap THEN "capacity_not_restored_after_overlapping_windows"
               ELSE "U:available_not_restored"
@@ -78,27 +107,26 @@ EndKey(L, n) ==
 Keys(L) ==
     { <<ActKey(L.act[n]), n>> : n \in QuietBadAct(L) }
     \cup { <<ActKey(L.snk[n]), n>> : n \in QuietBadSnk(L) }
-    \cup { << (IF ~CodeOn(CCrash(sch.probes[L.msgs[n][1]].y), L.msgs[n][2])
+    \cup { << (IF ~CrashB(sch.probes[L.msgs[n][1]].y, L.msgs[n][2])
                THEN "handler_runs_after_overlapping_window_end"
                ELSE "U:message_handled_while_crash_flag_set"), n>> : n \in QuietBadMsg(L) }
     \cup { <<"U:unplanned_activity", n>> : n \in SpuriousAct(L) }
     \cup { <<"U:unplanned_emission", n>> : n \in SpuriousSnk(L) }
     \cup (IF NoDup(L.act) /\ NoDup(L.snk) THEN {} ELSE { <<"U:activity_repeated", 0>> })
     \cup { <<MissKey(s), s[1]>> : s \in MissingAct(L) \cup MissingSnk(L) }
-    \cup { <<EffKey(PartWins(L.obs[n][2], L.obs[n][3]),
-                    CPartSym(L.obs[n][2], L.obs[n][3]) \cup CPartDir(L.obs[n][2], L.obs[n][3]),
-                    CPartOn(L.obs[n][2], L.obs[n][3], L.obs[n][1]), L.obs[n][1], L.obs[n][4] = 1,
+    \cup { <<EffKey(PartWins(L.obs[n][2], L.obs[n][3]), PrePart(L.obs[n][2], L.obs[n][3]),
+                    PartB(L.obs[n][2], L.obs[n][3], L.obs[n][1]), L.obs[n][1], L.obs[n][4] = 1,
                     "partition_healed_while_window_open", "U:partition_not_in_effect_in_window",
                     "U:partition_in_effect_outside_windows"), n>> : n \in PartBad(L) }
-    \cup { <<EffKey(LinkWins("loss", L.obs[n][2], L.obs[n][3]), CLink("loss", L.obs[n][2], L.obs[n][3]),
-                    CodeOn(CLink("loss", L.obs[n][2], L.obs[n][3]), L.obs[n][1]), L.obs[n][1], L.obs[n][5] = 1,
+    \cup { <<EffKey(LinkWins("loss", L.obs[n][2], L.obs[n][3]), PreLink("loss", L.obs[n][2], L.obs[n][3]),
+                    LossB(L.obs[n][2], L.obs[n][3], L.obs[n][1]), L.obs[n][1], L.obs[n][5] = 1,
                     "loss_restored_while_window_open", "U:loss_not_in_effect_in_window",
                     "U:loss_in_effect_outside_windows"), n>> : n \in LossBad(L) }
-    \cup { <<EffKey(LinkWins("lat", L.obs[n][2], L.obs[n][3]), CLink("lat", L.obs[n][2], L.obs[n][3]),
-                    CodeOn(CLink("lat", L.obs[n][2], L.obs[n][3]), L.obs[n][1]), L.obs[n][1], L.obs[n][6] = 1,
+    \cup { <<EffKey(LinkWins("lat", L.obs[n][2], L.obs[n][3]), PreLink("lat", L.obs[n][2], L.obs[n][3]),
+                    LatB(L.obs[n][2], L.obs[n][3], L.obs[n][1]), L.obs[n][1], L.obs[n][6] = 1,
                     "latency_restored_while_window_open", "U:latency_not_in_effect_in_window",
                     "U:latency_in_effect_outside_windows"), n>> : n \in LatBad(L) }
-    \cup { <<EffKey(CapWs, CCap, CodeOn(CCap, L.obs[n][1]), L.obs[n][1], L.obs[n][7] < sch.C,
+    \cup { <<EffKey(CapWs, PreCap, CapB(L.obs[n][1]), L.obs[n][1], L.obs[n][7] < sch.C,
                     "capacity_restored_while_window_open", "U:capacity_not_reduced_in_window",
                     "U:capacity_reduced_outside_windows"), n>> : n \in CapBad(L) }
     \cup { <<MsgFateKey(L, p), p>> : p \in MsgFateBad(L) }
